@@ -2927,14 +2927,22 @@ def loop_effects(loop, fv):
             tgt(node.target)
         elif isinstance(node, ast.Call):
             nm = fv.call_name(node)
-            callee = fv.lib.by_name.get((fv.filekey, nm))
-            if callee is not None and callee.modifies:
+            # contracts of a function of that name in ANY module of the package (the callee may be imported), all variants
+            fcands = [c for k_, c in fv.lib.contracts.items() if k_.split('::')[1].split('#')[0] == nm or k_.split('::')[1].split('#')[0].endswith('.' + nm) and '.' not in nm]
+            for callee in fcands:
+                if not callee.modifies:
+                    continue
                 pnames = [p for p, _ in callee.params]
                 for p, a in zip(pnames, node.args):
                     if p in callee.modifies:
                         b = base_name(a)
                         if b:
                             mutated.add(b)
+                        a2 = a
+                        while isinstance(a2, ast.Subscript):
+                            a2 = a2.value
+                        if isinstance(a2, ast.Attribute) and isinstance(a2.value, ast.Name):
+                            fields.add((a2.value.id, a2.attr))          # f(x.fld, ...) with fld modified in place
             if isinstance(node.func, ast.Attribute) and not (isinstance(node.func.value, ast.Name) and node.func.value.id in ('numpy', 'np')):
                 # a method call  x.m(a, ...): what it may change is read off the contracts of every method named m (all classes, all
                 # variants): their `modifies` / `modifies_scalar` entries, mapped from the callee's parameters to the receiver and the
